@@ -28,7 +28,8 @@ History (JSON-able list of macro steps):
                              so a burst is several encrypted frames and a read can hold complete frames followed by
                              an incomplete one
   script = {aid: reply}; reply = ["o"] (204) | ["s", [[aid,iid,status],..]] (207) |
-           ["d", fin|reset|malformed|nonutf8|silent] | ["x", code]  (HTTP 4xx); default ["o"]
+           ["d", fin|reset|malformed|nonutf8|silent|http500-empty|http503-garbage] | ["x", code]  (HTTP 4xx) |
+           ["h", code(, rows)] (HTTP 5xx with a JSON body: parsed like a 207, session stays up); default ["o"]
 rmodes = {listener: 0 never raises | 1 always | 2 only on the empty event | 3 only on non-empty events}
 lacts  = {listener: [mode, [[add?, l'], ..], kind?]}: what the listener does to the registry from inside its
          callback when `mode` (as above) fires: add? true = dispatcher_connect(listener l'), false = the stop
@@ -77,6 +78,21 @@ def body_bytes(b):
     return json.dumps({"characteristics": [{"aid": a, "iid": i, "value": v} for a, i, v in b[1]]}).encode()
 
 
+def reply_kind(rep):
+    """o | s | d | x as the model sees the answer.  ["h", code(, rows)] = an HTTP 5xx answer with a JSON body: request()
+    raises only for 400..499, so put_json parses the body like a 207 (status rows, if any) and the session stays up;
+    a 5xx with an empty / non-JSON body is one more way for the library to close the session itself (["d", "http5.."])."""
+    return "s" if rep[0] == "h" else rep[0]
+
+
+def http5xx_body(rep):
+    rows = rep[2] if len(rep) > 2 else []
+    d = {"status": -70403}
+    if rows:
+        d["characteristics"] = [{"aid": a, "iid": i, "status": s} for a, i, s in rows]
+    return json.dumps(d).encode()
+
+
 def fires(m, ev):
     return m == 1 or (m == 2 and not ev) or (m == 3 and bool(ev))
 
@@ -122,9 +138,11 @@ def run_impl(hist, rmodes, lacts=None):
         if len(aids) != 1 or len(evs) != 1:
             st["anomalies"].append(f"mixed-request aids={aids} evs={evs}")
         rep = state["rs"].get(str(aids[0]), ["o"]) if aids else ["o"]
-        st["puts"].append([evs[0] if evs else None, sorted(ids), rep[0], ep.sid])
+        st["puts"].append([evs[0] if evs else None, sorted(ids), reply_kind(rep), ep.sid])
         if rep[0] == "o":
             return simacc.http_response(204)
+        if rep[0] == "h":
+            return simacc.http_response(int(rep[1]), http5xx_body(rep), reason="Service Unavailable")
         if rep[0] == "s":
             b = json.dumps({"characteristics": [{"aid": a, "iid": i, "status": s} for a, i, s in rep[1]]}).encode()
             return simacc.http_response(207, b, reason="Multi-Status")
@@ -139,6 +157,10 @@ def run_impl(hist, rmodes, lacts=None):
             return simacc.http_response(207, b'{"characteristics": [', reason="Multi-Status")
         elif how == "nonutf8":
             return simacc.http_response(207, b'\xff\xfe{"characteristics": []}', reason="Multi-Status")
+        elif how == "http500-empty":
+            return simacc.http_response(500, b"", reason="Internal Server Error")
+        elif how == "http503-garbage":
+            return simacc.http_response(503, b"<html>busy</html>", ctype="text/html", reason="Service Unavailable")
         elif how == "silent":
             state["silent"] = True
         return None
@@ -358,6 +380,8 @@ def tok_script(rs):
     for aid, rep in rs.items():
         if rep[0] == "s":
             out.append(f"{aid}=s" + "".join(f"/{a}.{i}.{s}" for a, i, s in rep[1]))
+        elif rep[0] == "h":
+            out.append(f"{aid}=s" + "".join(f"/{a}.{i}.{s}" for a, i, s in (rep[2] if len(rep) > 2 else [])))
         else:
             out.append(f"{aid}={rep[0]}")
     return ";".join(out)
@@ -620,7 +644,8 @@ def oracle(hist, rmodes, impl, lacts=None):
 # =============================================================================================
 # generators
 # =============================================================================================
-DISC = ["fin", "reset", "malformed", "nonutf8", "silent"]
+DISC = ["fin", "reset", "malformed", "nonutf8", "silent", "http500-empty", "http503-garbage"]
+HTTP5 = [["h", 503], ["h", 500, [[1, 2, -70403]]]]
 PROBE = [["CD", "fin"], ["CU", {}], ["EB", [["b", [[1, 2, 99]]]], []]]
 
 
@@ -668,12 +693,12 @@ def gen_exhaustive(depth):
                                 + ops[pos:])
                 # the re-subscribe of a reconnect at this point is itself cut off
                 for aid in ("1", "2"):
-                    for rep in [["d", v] for v in DISC] + [["x", 400]]:
+                    for rep in [["d", v] for v in DISC] + [["x", 400]] + HTTP5:
                         variants.append(ops[:pos] + [["CD", "reset"], ["CU", {aid: rep}], ["CU", {}]] + ops[pos:])
             for pos, op in enumerate(ops):
                 if op[0] in ("S", "U"):
                     for aid in ("1", "2"):
-                        for rep in [["d", v] for v in DISC] + [["x", 470]]:
+                        for rep in [["d", v] for v in DISC] + [["x", 470]] + HTTP5:
                             op2 = json.loads(json.dumps(op))
                             op2[2] = dict(op2[2], **{aid: rep})
                             variants.append(ops[:pos] + [op2, ["CU", {}]] + ops[pos + 1:])
@@ -761,6 +786,8 @@ def rand_script(r):
         if x < 0.7:
             rows = r.sample(UNIVERSE, r.randrange(0, 3))
             rs[aid] = ["s", [[a, i, r.choice([0, -70402, -70406, -70410])] for a, i in rows]]
+            if r.random() < 0.35:
+                rs[aid] = ["h", r.choice([500, 503]), rs[aid][1]] if r.random() < 0.5 else ["h", r.choice([500, 502, 503])]
         elif cut == "d":
             rs[aid] = ["d", r.choice(DISC)]
         else:
@@ -1132,9 +1159,17 @@ def run_impl_conc(sched):
         if not pending:
             return
         ep, ev, ids = pending.pop(0)
-        st["puts"].append([ev, [list(c) for c in ids], rep[0], ep.sid])
+        st["puts"].append([ev, [list(c) for c in ids], reply_kind(rep), ep.sid])
+        if (rep[0] == "s" and any(x[2] != 0 for x in rep[1])) or (rep[0] == "h" and any(x[2] != 0 for x in (rep[2:] or [[]])[0])):
+            st["rejected"] = True
         if rep[0] == "o":
             ep.send_secure(simacc.http_response(204))
+        elif rep[0] == "h":
+            ep.send_secure(simacc.http_response(int(rep[1]), http5xx_body(rep), reason="Service Unavailable"))
+        elif rep[0] == "d" and rep[1] == "http500-empty":
+            ep.send_secure(simacc.http_response(500, b"", reason="Internal Server Error"))
+        elif rep[0] == "d" and rep[1] == "http503-garbage":
+            ep.send_secure(simacc.http_response(503, b"<html>busy</html>", ctype="text/html", reason="Service Unavailable"))
         elif rep[0] == "s":
             b = json.dumps({"characteristics": [{"aid": a, "iid": i, "status": s_} for a, i, s_ in rep[1]]}).encode()
             ep.send_secure(simacc.http_response(207, b, reason="Multi-Status"))
@@ -1251,6 +1286,8 @@ def run_impl_conc(sched):
 
 
 def conc_reply_tok(rep):
+    if rep[0] == "h":
+        return "s" + "".join(f"/{a}.{i}.{x}" for a, i, x in (rep[2] if len(rep) > 2 else []))
     return "s" + "".join(f"/{a}.{i}.{x}" for a, i, x in rep[1]) if rep[0] == "s" else rep[0]
 
 
@@ -1365,7 +1402,7 @@ def conc_oracle(sched, impl):
                 if o["connected"] and by.get(l, []) != exp:
                     bad.append(("conc:event-log", f"listener {l} got {by.get(l, [])}, the accessory sent {exp}", idx))
         for ev, ids, kind, _sid in o["puts"]:
-            if kind in ("d", "x", "s"):
+            if kind in ("d", "x") or o.get("rejected"):
                 clean = False
             elif ev:
                 acc |= {tuple(c) for c in ids}
@@ -1388,7 +1425,8 @@ CONC_TAIL = [["drain"], ["drop", "fin"], ["up"], ["drain"]]
 CONC_CALLS = [["S", [[1, 2], [2, 2]]], ["S", [[1, 3]]], ["S", [[2, 2], [1, 2], [2, 3]]], ["U", [[1, 2]]],
               ["U", [[2, 2], [1, 3]]], ["S", [[3, 2]]]]
 CONC_SPECIALS = [["ans", ["s", [[1, 2, -70402], [2, 2, 0]]]], ["ans", ["d", "fin"]], ["ans", ["d", "reset"]],
-                 ["ans", ["d", "malformed"]], ["ans", ["x", 400]], ["drop", "reset"], ["ev", [[1, 2, 5], [2, 2, 6]]]]
+                 ["ans", ["d", "malformed"]], ["ans", ["x", 400]], ["ans", ["h", 503]], ["ans", ["d", "http500-empty"]],
+                 ["drop", "reset"], ["ev", [[1, 2, 5], [2, 2, 6]]]]
 
 
 def gen_conc(tier, r):
@@ -1420,7 +1458,7 @@ def gen_conc(tier, r):
                 sched.append(["start", tag, "S" if r.random() < 0.65 else "U", ids])
             elif x < 0.62:
                 y = r.random()
-                rep = ["o"] if y < 0.7 else r.choice([a[1] for a in CONC_SPECIALS[:5]])
+                rep = ["o"] if y < 0.7 else r.choice([a[1] for a in CONC_SPECIALS[:7]])
                 if rep[0] == "s":
                     rep = ["s", [[*r.choice(UNIVERSE), r.choice([0, -70402])] for _ in range(r.randrange(0, 3))]]
                 sched.append(["ans", rep])
